@@ -439,7 +439,32 @@ fn run_two(pa: Vec<Step>, pb: Vec<Step>, sched: Vec<usize>) -> Option<Sexp> {
     Some(Sexp::tagged("two", answers))
 }
 
+/// Every program on its own fresh thread, all released together and left to run freely: the steps of
+/// different threads (the panic hook and its backtrace capture included) overlap in time for real.
+fn run_free(progs: Vec<Vec<Step>>) -> Option<Sexp> {
+    install_hooks();
+    let barrier = Arc::new(std::sync::Barrier::new(progs.len()));
+    let handles: Vec<_> = progs
+        .into_iter()
+        .map(|prog| {
+            let b = barrier.clone();
+            fresh_thread(move || {
+                b.wait();
+                thread_main(&prog, true, None)
+            })
+        })
+        .collect();
+    let mut answers = Vec::new();
+    for h in handles {
+        answers.push(h.join().ok()?);
+    }
+    Some(Sexp::tagged("free", answers))
+}
+
 pub fn run(head: &str, args: &[Sexp], case: &Sexp) -> Option<Sexp> {
+    if head == "panic-free" {
+        return run_free(args.iter().map(dec_prog).collect::<Option<Vec<_>>>()?);
+    }
     match (head, args) {
         ("panic-prog", [p]) => run_single(dec_prog(p)?, false, &case.to_line()),
         ("panic-prog", [p, m]) if m.is_sym("probe") => run_single(dec_prog(p)?, true, &case.to_line()),
